@@ -82,6 +82,22 @@ impl<'a> W<'a> {
     }
 }
 
+/// Outputs read by the test as a whole: by the program text, and by virtual signals that are
+/// already part of the signal list (their expressions read device outputs too).
+pub fn test_output_reads(p: &Program, sigs: &[Sig]) -> Vec<String> {
+    let mut v = analyse(p).output_reads;
+    for s in sigs {
+        if let SigKind::Virtual(e) = &s.kind {
+            for n in e.idents() {
+                if sigs.iter().any(|x| x.name == n && x.is_output()) && !v.iter().any(|x| x == n) {
+                    v.push(n.to_string());
+                }
+            }
+        }
+    }
+    v
+}
+
 pub fn analyse(p: &Program) -> ScopeInfo {
     let mut w = W {
         scopes: vec![HashSet::new()],
